@@ -69,6 +69,62 @@ func (c *recClock) Sleep(d time.Duration)                              { time.Sl
 
 var clk = &recClock{}
 
+// ---------------------------------------------------------------- starvation witness
+
+// A heartbeat goroutine notes the largest gap between two of its 500 µs ticks since the last reset. The
+// clients run inside this process: when the machine is so loaded that the process does not get to run for
+// tens of milliseconds, a client can miss its (real-time) deadline between two statements — e.g. decide to
+// retry and then find the socket deadline passed although the next datagram is already queued. Such an
+// exchange says nothing about the code; it is discarded (and counted), never reported. A defect of the
+// code does not make the heartbeat miss its ticks.
+var beat struct {
+	mu     sync.Mutex
+	last   time.Time
+	maxGap time.Duration
+	on     bool
+}
+
+func startHeartbeat() {
+	beat.mu.Lock()
+	if beat.on {
+		beat.mu.Unlock()
+		return
+	}
+	beat.on, beat.last = true, time.Now()
+	beat.mu.Unlock()
+	go func() {
+		for {
+			time.Sleep(500 * time.Microsecond)
+			now := time.Now()
+			beat.mu.Lock()
+			if g := now.Sub(beat.last); g > beat.maxGap {
+				beat.maxGap = g
+			}
+			beat.last = now
+			beat.mu.Unlock()
+		}
+	}()
+}
+
+func resetHeartbeat() {
+	startHeartbeat()
+	beat.mu.Lock()
+	beat.last, beat.maxGap = time.Now(), 0
+	beat.mu.Unlock()
+}
+
+// starved: the process was not scheduled for more than limit at some point since resetHeartbeat.
+func starved(limit time.Duration) bool {
+	now := time.Now()
+	beat.mu.Lock()
+	defer beat.mu.Unlock()
+	g := beat.maxGap
+	if d := now.Sub(beat.last); d > g {
+		g = d
+	}
+	return g > limit
+}
+
 // ---------------------------------------------------------------- recording filter
 
 type recFilter struct {
@@ -166,6 +222,9 @@ type dgram struct {
 	// SCION, re-framed packets (gen_reframe.go): the NTP header the UDP length field delimits from the
 	// start of the L4 data was written by the harness acting as an on-path attacker without keys
 	forgedHdr bool
+	// built by the peer as the answer to an EARLIER exchange's request (held back and delivered to the
+	// address that request came from while the next request is outstanding)
+	answersOther bool
 }
 
 type peer struct {
@@ -292,6 +351,7 @@ type exchCfg struct {
 	nts      bool // client with NTS enabled (key exchange data preloaded through the ntske hook)
 	spao     bool // SCION: Auth.Enabled with a DRKey fetcher that has no daemon (no key becomes available)
 	spaoKey  bool // SCION: Auth.Enabled with a DRKey fetcher on a fake daemon connector: the host-host key is available
+	port     int    // port of the client's local address as configured (0: none)
 	zone     string // zone of the client's local address ("lo": hardware timestamping requested on loopback, so
 	// the kernel delivers neither transmit nor receive timestamps and the client falls back to clock readings)
 	nowAll   bool // setNow's values script ALL clock readings of the exchange in order (else the first only)
@@ -299,6 +359,9 @@ type exchCfg struct {
 
 // liveZone: zone of the local address the live clients are called with (set per exchange).
 var liveZone string
+
+// livePort: port of the local address the live clients are called with (0: none configured).
+var livePort int
 
 // script decides, after seeing the request, which datagrams go back in which order.
 type script func(ri *reqInfo) (out []dgram, theta int64, S int64, genuineIL bool)
@@ -400,7 +463,7 @@ func (l ipLive) configure(cfg exchCfg, f *recFilter) {
 func (l ipLive) getPrev() client.VerifC03Prev  { return client.VerifC03PrevIP(l.c) }
 func (l ipLive) setPrev(p client.VerifC03Prev) { client.VerifC03SetPrevIP(l.c, p) }
 func (l ipLive) measure(ctx context.Context) (time.Time, time.Duration, error) {
-	la := &net.UDPAddr{IP: net.IPv4(127, 0, 0, 1).To4(), Zone: liveZone}
+	la := &net.UDPAddr{IP: net.IPv4(127, 0, 0, 1).To4(), Zone: liveZone, Port: livePort}
 	ra := net.UDPAddrFromAddrPort(thePeer.addr)
 	return client.VerifC03MeasureIP(ctx, l.c, la, ra)
 }
@@ -480,8 +543,9 @@ func exchange(c *lib.Ctx, lc liveClient, cfg exchCfg, sc script) (res exchResult
 		}
 	}
 	clk.reset(ov...)
-	liveZone = cfg.zone
-	defer func() { liveZone = "" }()
+	resetHeartbeat()
+	liveZone, livePort = cfg.zone, cfg.port
+	defer func() { liveZone, livePort = "", 0 }()
 	ctx := context.Background()
 	cancel := func() {}
 	if cfg.deadline != 0 {
@@ -545,6 +609,16 @@ func exchange(c *lib.Ctx, lc liveClient, cfg exchCfg, sc script) (res exchResult
 	}
 	if S != 0 {
 		p.remember(res.ri, theta, S)
+	}
+	limit := cfg.deadline / 8
+	if limit < 10*time.Millisecond {
+		limit = 10 * time.Millisecond // short deadlines come with a single datagram: only the recorded deadline verdict matters there
+	}
+	if cfg.deadline != 0 && starved(limit) {
+		// the process stalled for a noticeable part of the exchange's real-time deadline: what the client
+		// found on its socket when is not what the recorded order says
+		c.Count("discarded:process-starved")
+		return
 	}
 	res.valid = true
 	return
@@ -952,9 +1026,16 @@ func recordIP(c *lib.Ctx, tag string, cfg exchCfg, res exchResult) int {
 	// recorded reading is the one it compared with the deadline (under machine load the deadline may
 	// have passed by the time the first refused datagram is looked at)
 	before := "1"
-	if cfg.deadline != 0 && cfg.zone == "" && len(res.rd) >= 3 && res.rd[2] >= res.deadlineAt.UnixNano() {
-		before = "0"
-		c.Count(tag + ":deadline-passed-at-first-refusal")
+	if cfg.deadline != 0 && cfg.zone == "" {
+		for _, x := range res.rd {
+			if x > res.recvAt { // the first reading taken after the request had reached the peer
+				if x >= res.deadlineAt.UnixNano() && len(res.sent) > 0 {
+					before = "0"
+					c.Count(tag + ":deadline-passed-at-first-refusal")
+				}
+				break
+			}
+		}
 	}
 	op := fmt.Sprintf("cli.exch tr=%s il=%s nts=%s dl=%s filt=%s %s ref=same prev=%s now=%d ctx1=%d ev=%s",
 		res.tr, ilS, lib.Bool(cfg.nts), dlS, filt, res.hdr, prevStr(res.prev0, reference), res.now0, ctx1,
@@ -989,7 +1070,7 @@ func recordIP(c *lib.Ctx, tag string, cfg exchCfg, res exchResult) int {
 	// judged by the property's own predicate on the bytes the peer sent
 	if accepted {
 		if cands := explain(p, cfg, res); len(cands) > 0 {
-			echoOK, authOK, addrOK, hdrOK := false, false, false, false
+			echoOK, authOK, addrOK, hdrOK, ownOK := false, false, false, false, false
 			var descr []string
 			for _, u := range cands {
 				d := res.sent[u.idx]
@@ -1006,6 +1087,9 @@ func recordIP(c *lib.Ctx, tag string, cfg exchCfg, res exchResult) int {
 				if !(d.forgedHdr && (cfg.nts || cfg.spaoKey)) {
 					hdrOK = true
 				}
+				if !d.answersOther {
+					ownOK = true
+				}
 				descr = append(descr, fmt.Sprintf("datagram %d read as interleaved=%v: origin=%s auth-invalid=%v from-queried-host-to-client=%v", u.idx, u.il, f64(be64(d.b[24:])), d.authInvalid, d.wire == nil || d.addrOK))
 			}
 			detail := map[string]any{"used": descr, "request_interleaved": res.ri.interleavedRq, "request_tx": f64(res.ri.tx),
@@ -1018,6 +1102,11 @@ func recordIP(c *lib.Ctx, tag string, cfg exchCfg, res exchResult) int {
 			if !addrOK {
 				c.Fail("C05:scion:accepted-response-from-other-host",
 					"the SCION client took its measurement from a datagram whose source is not the queried ISD-AS and host (as an IP address, an IPv4 address and its IPv4-mapped form being the same) or which is not addressed to the client",
+					[]string{opReq, op}, detail)
+			}
+			if !ownOK {
+				c.Fail("C03:response-of-another-exchange-evaluated",
+					"the client took its measurement from a datagram the server sent in answer to an EARLIER exchange's request, to the address that request came from: it reached the socket of this exchange",
 					[]string{opReq, op}, detail)
 			}
 			if !hdrOK {
